@@ -621,6 +621,18 @@ def evaluate(ctx, r, out, cqm, ref, st):
     mat = np.ascontiguousarray(mat)
     sl = (mat, cols)
     slsrc = f'(np.array({mat.tolist()!r}, dtype=np.{np.dtype(dt).name}), {cols!r})' if labs else f'(np.empty(({nrows}, 0)), [])'
+    if labs and r.random() < .3:
+        # round 8: the same labelled rows handed over in the other samples_like forms `as_samples` dispatches on
+        dicts = [{c_: mat[i, j].item() for j, c_ in enumerate(cols)} for i in range(nrows)]
+        form = r.choice(['list of dicts', 'SampleSet', 'dict' if nrows == 1 else 'list of dicts'])
+        if form == 'list of dicts':
+            sl = dicts; slsrc = repr(dicts)
+        elif form == 'dict':
+            sl = dicts[0]; slsrc = repr(dicts[0])
+        else:
+            sl = SampleSet.from_samples((mat, cols), vartype='INTEGER', energy=[0] * nrows)
+            slsrc = f'SampleSet.from_samples({slsrc}, vartype="INTEGER", energy={[0] * nrows!r})'
+        ctx.tick('from_samples_cqm given a ' + form)
     try:
         ss = SampleSet.from_samples_cqm(sl, cqm, **tol)
         rec = ss.record
@@ -1107,7 +1119,7 @@ def default_tolerance_boundary(ctx, r, out):
 
 def run(ctx):
     r = ctx.rng
-    n = ctx.scale(800, 30000)
+    n = ctx.scale(800, 12000)
     ctx.rule = ('random CQMs (0-4 variables of all four types, 0-4 constraints of mixed senses, hard and soft side by side, linear and '
                 'quadratic penalties, constant-only objectives/constraints, wide INTEGER variables) x 1-5 in-domain rows x dyadic atol/rtol incl. 0, '
                 'evaluated when freshly built and again on the SAME object after each of 1-4 mutations (label swaps / cycles, relabel to new '
